@@ -64,25 +64,7 @@ impl<'p, 's> BottomUpContext<'p, 's> {
     let output = self.execute_obj(task.as_ref(), node);
 
     // Schedule tasks affected by task `node`'s resource writes.
-    for written_resource_node in self.session.store.get_resources_written_by(&node) {
-      let written_resource = self.session.store.get_resource(&written_resource_node);
-      let track_end = self.session.tracker.schedule_affected_by_resource(written_resource);
-      // Consider tasks that read `written_resource_node`.
-      for (reading_task_node, dependency) in self.session.store.get_read_dependencies_to_resource(&written_resource_node) {
-        let reading_task = self.session.store.get_task(&reading_task_node);
-        Self::try_schedule_task_by_resource_dependency(
-          reading_task.as_key_obj(),
-          reading_task_node,
-          dependency,
-          &mut self.session.resource_state,
-          &mut self.session.tracker,
-          &mut self.session.dependency_check_errors,
-          &mut self.scheduled,
-          &self.executing,
-        );
-      }
-      track_end(&mut self.session.tracker);
-    }
+    self.schedule_tasks_affected_by_writes_of(&node);
 
     // Schedule tasks affected by task `node`'s output.
     let track_end = self.session.tracker.schedule_affected_by_task(task.as_ref().as_key_obj());
@@ -105,6 +87,29 @@ impl<'p, 's> BottomUpContext<'p, 's> {
 
     self.session.consistent.insert(node);
     output
+  }
+
+  /// Schedule tasks that read a resource written by (just executed) task `node` and are affected by that write.
+  fn schedule_tasks_affected_by_writes_of(&mut self, node: &TaskNode) {
+    for written_resource_node in self.session.store.get_resources_written_by(node) {
+      let written_resource = self.session.store.get_resource(&written_resource_node);
+      let track_end = self.session.tracker.schedule_affected_by_resource(written_resource);
+      // Consider tasks that read `written_resource_node`.
+      for (reading_task_node, dependency) in self.session.store.get_read_dependencies_to_resource(&written_resource_node) {
+        let reading_task = self.session.store.get_task(&reading_task_node);
+        Self::try_schedule_task_by_resource_dependency(
+          reading_task.as_key_obj(),
+          reading_task_node,
+          dependency,
+          &mut self.session.resource_state,
+          &mut self.session.tracker,
+          &mut self.session.dependency_check_errors,
+          &mut self.scheduled,
+          &self.executing,
+        );
+      }
+      track_end(&mut self.session.tracker);
+    }
   }
 
   /// Schedule `reading_task` (with corresponding `reading_task_node`) if it is affected by a change in its resource
@@ -203,7 +208,11 @@ impl<'p, 's> BottomUpContext<'p, 's> {
     }
 
     if self.session.store.get_task_output(&node).is_none() { // Task is new: execute it.
-      return self.execute(task, node);
+      let output = self.execute(task, node);
+      // A new task may write resources that existing tasks have read (before anything generated them): those tasks
+      // are affected by this build as well.
+      self.schedule_tasks_affected_by_writes_of(&node);
+      return output;
     }
 
     // Task is an existing task. Either it has been scheduled if affected, or not scheduled if not affected.
